@@ -502,6 +502,15 @@ def rule_AI11(rep, prog, q):
                     % ({str(a): co for a, co in lf.items()}, k["WORKQ_MAX_TRACKED_TIDS"]), sample={"poke": c.loc})
 
 
+def rule_CP12(rep, prog, q):
+    from .sync_common import rule_cas_progress
+    rid = rep.rule("C01-CP12", "progress of every retried compare-exchange in the library (dq_state, list heads, pool counters, ...): a failed attempt is retried with "
+                   "the value it returned or with a fresh load, never with the stale expected value", floor=10)
+    n = rule_cas_progress(rep, rid, prog, fields=None)
+    if n < 10:
+        rep.unknown(rid, "fewer than 10 retried compare-exchanges found (%d)" % n)
+
+
 def run(rep, tier="quick", srcdir=None, only=None):
     prog, units = load(UNITS, tier, srcdir)
     rep.units = units
@@ -540,6 +549,8 @@ def run(rep, tier="quick", srcdir=None, only=None):
         # queues chained onto a workloop: draining more than one item must not fault on the anonymous wlh (shared with C03)
         from . import C03
         C03.rule_WL10(rep, prog, q)
+    if want("C01-CP12"):
+        rule_CP12(rep, ir.Program(build.facts_for("all", srcdir=srcdir)), q)
     if want("C01-AI11"):
         rule_AI11(rep, ir.Program(build.facts_for(["event/workqueue"], srcdir=srcdir)), q)
     if want("C03-MP11"):
